@@ -27,7 +27,7 @@ if applies:
         out = subprocess.run(["/verif/run.sh", "check", prop, "quick"], capture_output=True, text=True).stdout
     finally:
         subprocess.run("git -C /repo checkout -- . && git -C /repo clean -fdq", shell=True, check=True)
-    base_used = "HEAD"
+    base_used = subprocess.run(["git", "-C", "/repo", "log", "--format=%h", "-1"], capture_output=True, text=True).stdout.strip()
 else:
     assert base, "patch does not apply to HEAD; set SEED_BASE=<commit>"
     wt = "/tmp/seedwt-" + name
@@ -48,7 +48,7 @@ meta = {
     "demo": {"files": [d.replace("_test.go", "_test.go.txt") for d in demos], "copy_into": demodir,
              "how": "copy the demo file (renamed back to *_test.go) into that package directory of a scratch worktree and run `go test -run <its tests> ./" + demodir + "/` with and without patch.diff"},
     "confirmed": {"what_i_ran": "tools/verify_mutant.sh in a fresh scratch worktree: demo on clean tree, git apply, go build ./..., demo on mutant, full `go test -vet=off -count=1 ./...`", "result": ver},
-    "applies_to": base_used if base_used != "HEAD" else "current /repo HEAD at import time",
+    "applies_to": base_used,
     "detection": {"status_when_first_run": initially, "detected_now_by_rules": rules, "check_summary": summ[0] if summ else "", "note": note},
 }
 json.dump(meta, open(os.path.join(dst, "meta.json"), "w"), indent=1)
